@@ -38,8 +38,9 @@ fn universe() -> Module {
         ],
         opaque: false,
         public: true,
+        tags: vec![],
     };
-    let r = AdtDecl { name: "R1".into(), params: 0, ctors: vec![Ctor { name: "R1".into(), fields: vec![(Some("rx".into()), Ty::Bool), (Some("ry".into()), Ty::opt(Ty::Int))] }], opaque: false, public: true };
+    let r = AdtDecl { name: "R1".into(), params: 0, ctors: vec![Ctor { name: "R1".into(), fields: vec![(Some("rx".into()), Ty::Bool), (Some("ry".into()), Ty::opt(Ty::Int))] }], opaque: false, public: true, tags: vec![] };
     Module { adts: vec![t0, r], consts: vec![], fns: vec![] }
 }
 
